@@ -172,3 +172,13 @@ from contracts import c10 as _c10
 for _o in REGISTRY.get('C10', []):
     if _o.oid == 'C10.filler.calculate_amu_1loop':
         REGISTRY.setdefault('C03', []).append(Obligation('C03.thdm.filler.calculate_amu_1loop', _o.func, _o.fns, _o.tier, _o.backend, _o.doc, _o.replay, 'C03'))
+
+# ------------------------------------------------------------------------------------------------
+# The callee contracts the formulas above rest on (F1C, F2C, F1N, F2N == their published definitions) are C01's obligations;
+# they are re-registered here so that the C03 check decides the whole chain (formula structure AND loop functions) by itself.
+from gm2v.ob import REGISTRY as _REG, Obligation as _Ob
+from contracts import c01 as _c01
+for _f in ('F1C', 'F2C', 'F1N', 'F2N'):
+    for _o in _REG.get('C01', []):
+        if _o.oid == 'C01.%s.def' % _f:
+            _REG.setdefault('C03', []).append(_Ob('C03.callee.%s.def' % _f, _o.func, _o.fns, _o.tier, _o.backend, _o.doc, _o.replay, 'C03'))
